@@ -343,6 +343,16 @@ def _dict(*a, **k):
         d = a[0].sym_to_dict(_I())
         d.update(k)
         return d
+    if a and not isinstance(a[0], dict):
+        items, g = _I().iterate(a[0])
+        if g:
+            raise Unsupported('dict() of a symbolic-length iterable')
+        d = {}
+        for it in items:
+            kk, vv = _I().unpack(it, 2)
+            d[kk] = vv
+        d.update(k)
+        return d
     return dict(*a, **k)
 
 
@@ -2339,6 +2349,21 @@ class _MvnDist(object):
         raise Unsupported('multivariate_normal.' + name)
 
 
+class _FrozenMvn(object):
+    def __init__(self, dist, mean, cov, allow_singular):
+        self.dist, self.mean, self.cov, self.allow_singular = dist, mean, cov, allow_singular
+
+    def sym_getattr(self, interp, name):
+        f = self.dist.sym_getattr(interp, name)
+        return lambda Z: f(Z, mean=self.mean, cov=self.cov, allow_singular=self.allow_singular)
+
+
+def _mvn_call(self, interp, args, kwargs):
+    return _FrozenMvn(self, kwargs.get('mean', args[0] if args else None), kwargs.get('cov', args[1] if len(args) > 1 else 1),
+                      kwargs.get('allow_singular', False))
+
+
+_MvnDist.sym_call = _mvn_call
 SCIPY_STATS._table['multivariate_normal'] = _MvnDist()
 
 _old_num = _num
